@@ -48,6 +48,7 @@ class _Run:
         self.creator_log = []   # {"key","n","conn","seq","stamp","action"}
         self.execs = []         # one-way executions: {"tok","serial","stamp"}
         self.work = {}          # class key -> virtual seconds a construction takes
+        self.sub = set()        # class keys whose creator returns instances of a proper subclass of the registered class
         self.hook_raises = set()    # connection numbers for which the clientDisconnect hook raises
         self.hook_calls = []    # (connection number, raised)
         self.creator_n = {}     # class key -> invocations so far
@@ -131,6 +132,8 @@ def _creator(clazz):
     try:
         if action == "impostor":
             return Impostor()
+        if key in run.sub:
+            return SUBCLASSES[clazz]()      # a factory: isinstance(obj, clazz) holds, type(obj) is not clazz
         return clazz()
     finally:
         run.in_creator[tid] -= 1
@@ -192,6 +195,17 @@ for _m in MODES:
             CLASSES[(_m, _sh, _c)] = _cls
             globals()[_cls.__name__] = _cls
 del _m, _sh, _c, _cls
+
+# what a factory-style creator returns: an instance of a proper subclass (same shape, same bookkeeping key)
+SUBCLASSES = {}
+for _k, _cls in CLASSES.items():
+    if _k[2]:
+        _ns = {"__module__": __name__, "__qualname__": "Sub_" + _cls.__name__}
+        if _k[1] in SLOTS:
+            _ns["__slots__"] = ()
+        SUBCLASSES[_cls] = type("Sub_" + _cls.__name__, (_cls,), _ns)
+        globals()["Sub_" + _cls.__name__] = SUBCLASSES[_cls]
+del _k, _cls, _ns
 
 
 @api.expose
@@ -273,11 +287,12 @@ class InstWorld(World):
               "session_dropped_after_reset", "commtimeout", "slow_constructor", "single_creation_longer_than_commtimeout_contended",
               "stalled_in_getInstance", "oneway_served", "oneway_first_call", "oneway_first_then_call_slow_session",
               "session_dropped_after_oneway_then_disconnect", "daemon_closed_with_open_connections", "served_after_daemon_close",
-              "single_served_after_daemon_close", "unhashable_shape", "slots_shape", "slots_session_dropped_verified", "session_dropped_although_disconnect_hook_raised", "session_dropped_after_daemon_close"]
+              "single_served_after_daemon_close", "unhashable_shape", "slots_shape", "slots_session_dropped_verified", "two_daemons", "second_daemon_after_first_was_shut_down",
+              "single_class_served_by_two_daemons", "served_by_subclass_instance", "session_served_by_subclass_instance", "session_dropped_although_disconnect_hook_raised", "session_dropped_after_daemon_close"]
     RULE = ("plan = (server type, serializer, 1-3 registered classes out of {single,session,percall} x {truthy, falsy via __len__, "
             "falsy via __bool__, __eq__ always True, __eq__ always False, __eq__ without __hash__ (unhashable), __slots__ without __weakref__ / "
             "__dict__, __slots__ with __eq__, __hash__ that raises} x {no creator, creator script of ok/raise/None/foreign "
-            "object per invocation}, 2-4 clients x 1-3 connections (released or reset by the client; same or new proxy) x 0-4 calls, normal or one-way (a call may address another registered class over "
+            "object per invocation; optionally a factory creator returning instances of a proper subclass}, optionally a second daemon serving the same classes (side by side or after the first was shut down), 2-4 clients x 1-3 connections (released or reset by the client; same or new proxy) x 0-4 calls, normal or one-way (a call may address another registered class over "
             "the same connection), construction time 0/0.05/0.9 virtual s per class, COMMTIMEOUT 0 or 0.3 s, optional barrier releasing all "
             "first calls together, a clientDisconnect hook that raises for chosen connections, optionally daemon.shutdown()/close() while every "
             "client keeps its last connection open followed by 0-2 more calls on it, pre-emption and stall probabilities); distinct = "
@@ -294,6 +309,8 @@ class InstWorld(World):
                    "lost with a reset connection) is not judged",
                    "an instance held only by a garbage cycle counts as dropped (gc.collect() before a leak is reported)",
                    "instances of the __slots__ shapes cannot be weakly referenced: their death is observed through their own __del__",
+                   "with two daemons in one run (side by side, or the second after the first was shut down) every rule holds per daemon, and an "
+                   "instance created by one daemon never serves a call of the other",
                    "a request needs at most one new instance, so at most one creator invocation may happen while serving one request",
                    "a creator that returns an object that is not an instance of the class has failed: the call must not be served by that object",
                    "methods of the workload classes never raise, so every error reply stems from instance creation"]
@@ -338,7 +355,10 @@ class InstWorld(World):
                     script = []
                 else:
                     script = [rng.choice(["ok", "ok", "raise", "raise", "none", "impostor"]) for _ in range(rng.randint(1, 4))]
-            objs.append({"mode": mode, "shape": shape, "creator": script, "work": rng.choice([0, 0, 0.05, 0.9])})
+            ob = {"mode": mode, "shape": shape, "creator": script, "work": rng.choice([0, 0, 0.05, 0.9])}
+            if cr and rng.random() < 0.25:
+                ob["sub"] = True
+            objs.append(ob)
         nobj = len(objs)
         clients = []
         for ci in range(rng.randint(2, 4)):
@@ -357,6 +377,13 @@ class InstWorld(World):
                                 "k": "note" if rng.random() < 0.2 else "who", "pause": 0} for _ in range(rng.randint(0, 2))]
             clients.append(cl)
         extra = {}
+        if not close_then_call and rng.random() < 0.12:
+            # a second daemon in the same process serving the same classes, next to the first one or after it was shut down
+            extra["daemon2"] = {"servertype": rng.choice(["thread", "multiplex"]), "when": rng.choice(["parallel", "parallel", "after"])}
+            for i, cl in enumerate(clients):
+                cl["d"] = 1 if (i == len(clients) - 1 or rng.random() < 0.4) else 0
+            if all(cl["d"] == 1 for cl in clients):
+                clients[0]["d"] = 0
         if close_then_call:
             extra["close_then_call"] = rng.choice(["shutdown", "shutdown", "close"])
         if hook_raises:
@@ -385,6 +412,19 @@ class InstWorld(World):
             p = dict(plan)
             p["commtimeout"] = 0
             yield p
+        if plan.get("daemon2"):
+            p = {k: v for k, v in plan.items() if k != "daemon2"}
+            yield p
+            if plan["daemon2"].get("when") != "parallel":
+                p = dict(plan)
+                p["daemon2"] = dict(plan["daemon2"], when="parallel")
+                yield p
+        for k, o in enumerate(plan["objs"]):
+            if o.get("sub"):
+                p = dict(plan)
+                p["objs"] = [dict(x) for x in plan["objs"]]
+                del p["objs"][k]["sub"]
+                yield p
         if plan.get("close_then_call") == "shutdown":
             p = dict(plan)
             p["close_then_call"] = "close"
@@ -416,7 +456,7 @@ class InstWorld(World):
             if dirty:
                 p = dict(plan)
                 p["clients"] = [dict(x) for x in plan["clients"]]
-                p["clients"][i] = {"start": 0, "sessions": [{"o": s["o"], "reuse": False,
+                p["clients"][i] = {"start": 0, "d": c.get("d", 0), "after": c.get("after") or [], "sessions": [{"o": s["o"], "reuse": False,
                                                              "calls": [{"o": x["o"], "k": x.get("k", "who"), "pause": 0} for x in s["calls"]]}
                                                             for s in c["sessions"]]}
                 yield p
@@ -434,11 +474,16 @@ class InstWorld(World):
         try:
             self._scenario(ctx, run, registered)
         finally:
-            for daemon, cls in registered:
-                try:
-                    daemon.unregister(cls)      # the classes are module level: do not keep this run's daemon alive through them
-                except Exception:  # noqa
-                    pass
+            for daemon, classes, oids in registered:
+                for oid in oids:
+                    try:
+                        daemon.unregister(oid)
+                    except Exception:  # noqa
+                        pass
+                for cls in classes:             # the classes are module level: do not keep this run's daemons alive through them
+                    for a in ("_pyroId", "_pyroDaemon"):
+                        if a in cls.__dict__:
+                            delattr(cls, a)
                 pool = getattr(getattr(daemon, "transportServer", None), "pool", None)
                 if pool is not None:
                     pool.closed = True          # nothing left for SocketServer_Threadpool.__del__ -> Pool.close() to wait for
@@ -471,19 +516,31 @@ class InstWorld(World):
             if hit is None:
                 hit = len(objs)
                 objs.append({"cls": cls, "key": cls._key, "mode": o["mode"], "shape": o["shape"], "work": float(o.get("work") or 0.0),
-                             "script": list(o["creator"]) if o.get("creator") is not None else None})
+                             "script": list(o["creator"]) if o.get("creator") is not None else None, "k": hit, "oid": "o%d" % hit})
+                if o.get("sub") and o.get("creator") is not None:
+                    run.sub.add(cls._key)
             index.append(hit)
         if not objs or not any(c["sessions"] for c in plan["clients"]):
             return
-        srv = Server(ctx, plan["servertype"], daemon_cls=_HookDaemon, pool=(int(plan.get("pool_min") or 1), 8), commtimeout=commtimeout)
+        servers = []        # daemon number -> Server
+        uris = []           # daemon number -> [uri of object k]
+
+        def start_daemon(servertype):
+            sv = Server(ctx, servertype, daemon_cls=_HookDaemon, pool=(int(plan.get("pool_min") or 1), 8), commtimeout=commtimeout)
+            sv.daemon.create_single_instance_lock = _ProbeLock(sched)     # same semantics, counts contention (probe only)
+            servers.append(sv)
+            uris.append([sv.register(e["cls"], e["oid"]) for e in objs])  # every daemon serves the same classes under the same ids
+            registered.append((sv.daemon, [e["cls"] for e in objs], [e["oid"] for e in objs]))
+            return sv
+
+        srv = start_daemon(plan["servertype"])
         daemon = srv.daemon
         run.hook_raises = set(plan.get("hook_raises") or ())
         closing = plan.get("close_then_call") if plan["servertype"] == "thread" else None   # (a stopped multiplex loop serves nobody)
-        daemon.create_single_instance_lock = _ProbeLock(sched)     # same semantics, counts contention (probe only)
-        for k, e in enumerate(objs):
-            e["oid"] = "o%d" % k
-            e["uri"] = srv.register(e["cls"], e["oid"])
-            registered.append((daemon, e["cls"]))
+        second = plan.get("daemon2") if not closing else None
+        if second and second.get("when") == "parallel":
+            start_daemon(second["servertype"])
+        for e in objs:
             if e["script"] is not None:
                 run.scripts[e["key"]] = e["script"]
             if e["work"]:
@@ -497,12 +554,19 @@ class InstWorld(World):
             return objs[index[i % len(index)]]
 
         race = bool(plan.get("race"))
-        expected = sum(1 for c in plan["clients"] if c["sessions"])
+        later = second is not None and second.get("when") != "parallel"     # daemon 2 starts after daemon 1 was shut down
+
+        def daemon_of(cspec):
+            return 1 if (second and cspec.get("d")) else 0
+
+        expected = sum(1 for c in plan["clients"] if c["sessions"] and not (later and daemon_of(c)))
+        closed_daemons = set()
         st = {"arrived": 0, "go": False, "parked": 0, "closed": False}
         calls = []          # every attempted call
         conns = []          # every connection: {"conn","ci","si","reconnect","ended","leak" (serials alive after the end)}
         problems = []       # things outside the property that wrecked the scenario
         parked_clients = {}
+        conn_daemon = {}    # connection number -> number of the daemon that accepted it
 
         def arrive():
             st["arrived"] += 1
@@ -530,7 +594,7 @@ class InstWorld(World):
             o = eff(c["o"])
             conn = crec["conn"]
             kind = c.get("k", "who")
-            rec = {"conn": conn, "key": o["key"], "tok": tok, "foreign": o is not so, "kind": kind, "phase": phase, "inv": sched.stamp()}
+            rec = {"conn": conn, "d": crec["d"], "key": o["key"], "tok": tok, "foreign": o is not so, "kind": kind, "phase": phase, "inv": sched.stamp()}
             try:
                 if kind == "note":
                     if o is so:
@@ -571,13 +635,14 @@ class InstWorld(World):
             if not race and cspec.get("start"):
                 sched.sleep(cspec["start"])
             prev = None
-            at_barrier = race
+            d = daemon_of(cspec)
+            at_barrier = race and not (later and d)
             for si, sess in enumerate(cspec["sessions"]):
                 so = eff(sess["o"])
                 if sess.get("reuse") and prev is not None and prev[1] is so:
                     p = prev[0]                     # the same proxy connects again
                 else:
-                    p = CL.Proxy(so["uri"])
+                    p = CL.Proxy(uris[d][so["k"]])
                 p._pyroTimeout = None               # (a proxy's timeout defaults to COMMTIMEOUT: constructors may take longer than that)
                 try:
                     p._pyroBind()
@@ -588,7 +653,8 @@ class InstWorld(World):
                         arrive()
                     continue
                 conn = p._pyroConnection.sock.conn
-                crec = {"conn": conn, "ci": ci, "si": si, "reconnect": si > 0, "ended": False, "leak": None, "notes": []}
+                crec = {"conn": conn, "d": d, "ci": ci, "si": si, "reconnect": si > 0, "ended": False, "leak": None, "notes": []}
+                conn_daemon[conn] = d
                 conns.append(crec)
                 if at_barrier:
                     at_barrier = False
@@ -630,14 +696,16 @@ class InstWorld(World):
                 prev = (p, so)
 
         ths = [threading.Thread(target=client, args=(i, c), name="client%d" % i) for i, c in enumerate(plan["clients"])]
-        for t in ths:
+        phase2 = [t for t, c in zip(ths, plan["clients"]) if later and daemon_of(c)]
+        phase1 = [t for t in ths if t not in phase2]
+        for t in phase1:
             t.start()
         if race:
             sched.block(lambda: st["arrived"] >= expected, 600.0, "all-connected")
         st["go"] = True
         if closing:
             # every client has finished but keeps its last connection open: stop the daemon, then let them call again
-            sched.block(lambda: st["parked"] >= len(ths), 600.0, "all-parked")
+            sched.block(lambda: st["parked"] >= len(phase1), 600.0, "all-parked")
             try:
                 if closing == "close":
                     daemon.close()
@@ -648,15 +716,33 @@ class InstWorld(World):
             sched.ev("daemon-closed", closing)
             ctx.probe("daemon_closed_with_open_connections")
             st["closed"] = True
-        for t in ths:
+            closed_daemons.add(0)
+        for t in phase1:
             t.join(600.0)
+        if later and all(sched.sim_thread_of(t).state == "done" for t in phase1):
+            # the first daemon has done its work and is shut down; a new daemon serves the same classes afterwards
+            try:
+                daemon.shutdown()
+            except Exception as x:  # noqa
+                problems.append("daemon.shutdown() raised %s: %s" % (type(x).__name__, str(x)[:100]))
+            closed_daemons.add(0)
+            sched.ev("daemon-1-shut-down")
+            start_daemon(second["servertype"])
+            ctx.probe("second_daemon_after_first_was_shut_down")
+            for t in phase2:
+                t.start()
+            for t in phase2:
+                t.join(600.0)
+        elif later:
+            ths = phase1
         for t in ths:
             stt = sched.sim_thread_of(t)
             if stt.died:
                 raise S.HarnessError("client thread died: %r" % (stt.died,))
+        dead_loop = next((sv for n, sv in enumerate(servers) if n not in closed_daemons and not sv.loop_alive()), None)
         if any(sched.sim_thread_of(t).state != "done" for t in ths):
-            if not srv.loop_alive() and not closing:
-                ctx.disturbed = "daemon loop died: %r" % (srv.loop_death(),)
+            if dead_loop is not None:
+                ctx.disturbed = "daemon loop died: %r" % (dead_loop.loop_death(),)
             elif any(c["action"] != "ok" for c in run.creator_log):
                 # no method of the workload blocks: after a failed creation every later call must still be answered
                 ctx.violate("creator-failure-not-isolated", "hang", "after an instance creator failure a client got no reply to a call "
@@ -671,8 +757,9 @@ class InstWorld(World):
                 break
             sched.sleep(1.0)
         self._forget_finished_oneway_threads(sched)
-        if not srv.loop_alive() and not closing:
-            ctx.disturbed = "daemon loop died: %r" % (srv.loop_death(),)
+        dead_loop = next((sv for n, sv in enumerate(servers) if n not in closed_daemons and not sv.loop_alive()), None)
+        if dead_loop is not None:
+            ctx.disturbed = "daemon loop died: %r" % (dead_loop.loop_death(),)
             return
         if problems:
             ctx.disturbed = problems[0]
@@ -685,6 +772,11 @@ class InstWorld(World):
             ctx.probe("preempted_in_getInstance")
         if sched.stalls:
             ctx.probe("stalled_in_getInstance")
+        if len(servers) > 1:
+            ctx.probe("two_daemons")
+            ctx.probe(servers[1].servertype)
+        for m in run.made:
+            m["d"] = conn_daemon.get(m["conn"])
         self._judge(ctx, plan, run, by_key, calls, conns)
 
     # ------------------------------------------------------------------ oracle
@@ -739,6 +831,9 @@ class InstWorld(World):
                 if m is None:
                     raise S.HarnessError("%s was served by unknown instance %r" % (what, served))
                 rec["serial"] = served
+                if m["d"] is not None and m["d"] != rec["d"]:
+                    ctx.violate("instance-shared-between-daemons", e["mode"], "%s on daemon %d was served by instance %d, which was created by daemon %d"
+                                % (what, rec["d"], served, m["d"]))
                 if m["key"] == "Impostor":
                     ctx.violate("wrong-type-accepted", "", "%s was served by the object of a foreign class that the instance creator returned" % what)
                     bad_keys.add(rec["key"])
@@ -761,6 +856,10 @@ class InstWorld(World):
                     ctx.probe("unhashable_shape")
                 if e["shape"] in SLOTS:
                     ctx.probe("slots_shape")
+                if rec["key"] in run.sub and m["in_creator"]:
+                    ctx.probe("served_by_subclass_instance")
+                    if e["mode"] == "session":
+                        ctx.probe("session_served_by_subclass_instance")
                 ctx.probe(e["mode"])
                 if rec["foreign"]:
                     ctx.probe("multi_class_connection")
@@ -803,13 +902,22 @@ class InstWorld(World):
 
         # ---- the instance mode rules, per class ("served" = answered normal calls and executed one-way calls)
         ok_conns = set()
-        for key, e in by_key.items():
+        all_calls = calls
+        daemons = sorted({r["d"] for r in all_calls})
+        served_on = {}
+        for key, e, d in [(key, e, d) for key, e in by_key.items() for d in daemons]:
+            # the rules hold per daemon: every daemon has its own 'single' instance, its own connections
+            calls = [r for r in all_calls if r["d"] == d]
             oks = [r for r in calls if r["key"] == key and "serial" in r]
             for r in oks:
                 ok_conns.add(r["conn"])
+            if oks:
+                served_on.setdefault(key, set()).add(d)
             if key in bad_keys:
                 continue
-            made = [m for m in run.made if m["key"] == key]
+            made = [m for m in run.made if m["key"] == key and m["d"] == d]
+            if len(daemons) > 1:
+                key = "%s on daemon %d" % (key, d)      # (only used in messages from here on)
             if e["work"] and made:
                 ctx.probe("slow_constructor")
             if e["mode"] == "single":
@@ -875,6 +983,9 @@ class InstWorld(World):
                     ctx.violate("percall-construction-count", "", "%d instances of the 'percall' class %s were constructed for %d served calls"
                                 % (len(made), key, len(oks)))
 
+        calls = all_calls
+        if any(by_key[k]["mode"] == "single" and len(ds) > 1 for k, ds in served_on.items()):
+            ctx.probe("single_class_served_by_two_daemons")
         # ---- session instances are dropped when their connection ends
         last_of_conn = {}
         for rec in calls:
